@@ -426,6 +426,14 @@ def run(ctx):
         alts = alternatives(term)
         have_tbl = have_d = False
         for a in alts:
+            # TABLE.get(x, [(None, -1)])[0][pos]: both alternatives in one lookup
+            if a[0] == "idx" and a[2] == pos and a[1][0] == "idx" and a[1][2] == 0 \
+                    and a[1][1][0] == "dget" and a[1][1][1] == ("param", "inodes") \
+                    and a[1][1][3][0] in ("list", "tuple") and len(a[1][1][3]) == 2 \
+                    and a[1][1][3][1][0] == "tuple" and len(a[1][1][3][1]) == 3 \
+                    and a[1][1][3][1][1 + pos] == ("const", dflt):
+                have_tbl = have_d = True
+                continue
             if a == ("const", dflt):
                 have_d = True
             elif a[0] == "idx" and a[2] == pos and a[1][0] == "idx" and a[1][2] == 0 \
@@ -454,8 +462,13 @@ def run(ctx):
                 loop = fl
     forms = set()
 
+    _seen = set()
+
     def owner_forms(e):
         if isinstance(e, ast.Name) and e.id != inodes_p:
+            if e.id in _seen:
+                return
+            _seen.add(e.id)
             defs = [s_.value for s_ in ast.walk(pu.node) if isinstance(s_, ast.Assign)
                     and any(dotted(t_) == e.id for t_ in s_.targets)]
             if not defs:
@@ -465,6 +478,15 @@ def run(ctx):
         elif isinstance(e, ast.IfExp):
             owner_forms(e.body)
             owner_forms(e.orelse)
+        elif isinstance(e, ast.ListComp) and len(e.generators) == 1 \
+                and isinstance(e.generators[0].target, ast.Name) \
+                and dotted(e.elt) == e.generators[0].target.id:
+            # a filtered copy of the holders is still made of holders
+            it_ = e.generators[0].iter
+            if isinstance(it_, ast.Name) and it_.id in _seen:
+                pass
+            else:
+                owner_forms(it_)
         elif isinstance(e, ast.BoolOp) and isinstance(e.op, ast.Or):
             for v_ in e.values:
                 owner_forms(v_)
@@ -509,11 +531,42 @@ def run(ctx):
             if not owner:
                 okf = False
                 continue
+            # holders filtered BEFORE the loop (`pairs = [x for x in pairs if x[0] ==
+            # filter_pid]` under `filter_pid is not None`): the row is reached iff that
+            # assignment did not run or its condition holds for the row's owner
+            extra = []
+            lp_ = [fl for fl in ast.walk(f.node) if isinstance(fl, ast.For)
+                   and any(x is y.stmt for x in ast.walk(fl))]
+            if lp_ and isinstance(lp_[-1].iter, ast.Name) and isinstance(lp_[-1].target, ast.Tuple):
+                itn = lp_[-1].iter.id
+                opos = [i_ for i_, t_ in enumerate(lp_[-1].target.elts) if dotted(t_) == owner]
+                for st_ in ast.walk(f.node):
+                    if isinstance(st_, ast.Assign) and dotted(st_.targets[0]) == itn \
+                            and isinstance(st_.value, ast.ListComp) \
+                            and len(st_.value.generators) == 1 and st_.value.generators[0].ifs \
+                            and isinstance(st_.value.generators[0].target, ast.Name) \
+                            and dotted(st_.value.elt) == st_.value.generators[0].target.id and opos:
+                        xv = st_.value.generators[0].target.id
+
+                        class _S(ast.NodeTransformer):
+                            def visit_Subscript(self, n_):
+                                if dotted(n_.value) == xv and isinstance(n_.slice, ast.Constant) \
+                                        and n_.slice.value == opos[0]:
+                                    return ast.Name(owner, ast.Load())
+                                return self.generic_visit(n_)
+                        import copy as _copy
+                        cond = ast.BoolOp(ast.And(), [_S().visit(_copy.deepcopy(c_))
+                                                      for c_ in st_.value.generators[0].ifs])
+                        gs_ = [(_copy.deepcopy(e_), p_) for n_ in fcfg_.nodes_of(st_)
+                               for e_, p_, _x in fcfg_.guards(n_) if p_ in (True, False)]
+                        ran = ast.BoolOp(ast.And(), [e_ if p_ else ast.UnaryOp(ast.Not(), e_)
+                                                     for e_, p_ in gs_] or [ast.Constant(True)])
+                        extra.append((ast.BoolOp(ast.Or(), [ast.UnaryOp(ast.Not(), ran), cond]), True))
             for flt, own, want in ((None, 7, True), (None, None, True), (7, 7, True),
                                    (7, 8, False), (7, None, False), (0, 0, True)):
                 reach = True
                 decided = False
-                for e, pol, _ in fcfg_.guards(y):
+                for e, pol, _ in list(fcfg_.guards(y)) + [(e_, p_, None) for e_, p_ in extra]:
                     names_ = {x.id for x in ast.walk(e) if isinstance(x, ast.Name)}
                     if fpn not in names_:
                         continue
